@@ -41,6 +41,7 @@ type Report struct {
 	verbose    bool
 	noEvidence bool
 	xref       map[string]any
+	thorough   map[string]any
 }
 
 func newReport(pc *propertyCheck, tier string, seed int, out string) *Report {
@@ -278,6 +279,10 @@ func (r *Report) writeEvidence(counts map[string]int, violated []Obligation, rep
 
 	if len(r.xref) > 0 {
 		cov["cross_reference"] = r.xref
+	}
+
+	if r.thorough != nil {
+		cov["variants_replayed"] = r.thorough
 	}
 
 	ev := map[string]any{
